@@ -139,3 +139,16 @@ structure EntryRow where
   kind : CheckKind
   fromConfig : Option String := Option.none
 deriving DecidableEq, Repr
+
+/-- the structural choices of `config.py` that the scoping properties rest on (extracted from the
+source by the translator) -/
+structure ConfigImpl where
+  /-- `set_config` validates every option before writing any -/
+  validateFirst : Bool
+  /-- `config_context` calls `set_config` inside the `try` whose `finally` restores -/
+  enterInTry : Bool
+  /-- the `finally` block clears the dict before putting the saved options back -/
+  restoreClear : Bool
+  /-- `get_config()` hands out a copy, not the live dict -/
+  getCopies : Bool
+deriving DecidableEq, Repr
